@@ -40,7 +40,7 @@ Definition fg (cfg : Lsm.dbcfg) (x : lsm_raw) (a : Lsm.act) : lsm_raw * Lsm.obs 
 
 Definition raw_put (cfg : Lsm.dbcfg) (k v : bytes) (x : lsm_raw) : lsm_raw := fst (fg cfg x (Lsm.APut k v)).
 Definition raw_del (cfg : Lsm.dbcfg) (k : bytes) (x : lsm_raw) : lsm_raw := fst (fg cfg x (Lsm.ADel k)).
-Definition raw_scan (cfg : Lsm.dbcfg) (p : bytes) (x : lsm_raw) : list (bytes * bytes) * lsm_raw :=
+Definition raw_scan (cfg : Lsm.dbcfg) (p : bytes) (x : lsm_raw) : list (bytes * bytes) * lsm_raw :=   (* the LSM model has no read faults *)
   let (x1, _) := fg cfg x (Lsm.AScan1 p) in
   let (x2, o) := fg cfg x1 Lsm.AScan2 in
   (match o with Lsm.OScan r => r | _ => [] end, x2).
